@@ -39,7 +39,7 @@ Inductive outcome := Same | RefusedIgnore | RefusedWs | Spliced.
 Definition do_outcome (src : ztext) (r : range) (new : ztext) : outcome :=
   let code := slice src r in
   if text_eqb new code then Same
-  else if has_ignore (to_n src) r then RefusedIgnore
+  else if has_ignore (to_n src) None r then RefusedIgnore
   else if ws_only (to_n code) (to_n new) then RefusedWs
   else Spliced.
 
